@@ -1400,6 +1400,33 @@ fn fam_symmetry(o: &mut Out, quick: bool, rng: &mut Rng) {
             o.pair("C13", "equal", &a, &b, "time reflection with a rejected first_step");
         }
     }
+    // reflection of low-level runs whose callback returns ModifiedSolution (state unchanged) at some steps: whatever a solver
+    // rebuilds on that return (derivative, BDF history, Radau predictor) mirrors with the problem, in both directions
+    for m in METHODS {
+        for (x0, xend) in [(0.0, 2.0), (2.0, -1.0)] {
+            for (pk, pp) in [("sho", 0.0), ("vdp", 2.0)] {
+                if quick && pk == "vdp" && m != "BDF" && m != "RADAU" { continue; }
+                let mut c = base(m, Problem::new(pk, pp), x0, xend);
+                c.api = "low".into();
+                c.rtol = vec![1e-5];
+                c.atol = vec![1e-7];
+                c.jac = "user".into();
+                if m == "RK4" { c.first_step = Some((xend - x0) / 12.0); }
+                c.script = [1usize, 2, 4, 7].iter().map(|k| Script { k: *k, action: "modify_same".into() }).collect();
+                c.tags = vec!["reference+modify_same".into()];
+                let a = o.run(c.clone());
+                let mut v = c.clone();
+                v.problem.reflect = true;
+                v.x0 = -x0;
+                v.xend = -xend;
+                v.first_step = c.first_step.map(|h| -h);
+                v.map = "reflect".into();
+                v.tags = vec!["reflect+modify_same".into()];
+                let b = o.run(v);
+                o.pair("C13", "equal_cb", &a, &b, "time reflection of a run with ModifiedSolution callbacks");
+            }
+        }
+    }
     let ncase = if quick { 12 } else { 120 };
     let probs = vec![Problem::new("lin2", 0.0), Problem::new("decay", 1.0), Problem::new("vdp", 5.0), Problem::new("lin3", 0.0), Problem::new("sho", 0.0), Problem::new("logistic", 0.0)];
     // reflection with events, incl. two event functions crossing within one (large) step and one of them terminal
